@@ -236,6 +236,27 @@ func c10Case(w *core.W, j int) {
 			set.recs = append(set.recs, cloneRec(r))
 		}
 	}
+	if j%9 == 8 {
+		// an RRset whose canonical form is far larger than any fixed working buffer (5..40 KiB)
+		set.recs = nil
+		big := model.Layouts[16]
+		for i := 0; i < 3+g.R.IntN(30); i++ {
+			var strs [][]byte
+			for k := 0; k < 1+g.R.IntN(6); k++ {
+				strs = append(strs, g.TextBytes(200+g.R.IntN(56)))
+			}
+			set.recs = append(set.recs, &model.Rec{Owner: owner.Clone(), Type: 16, Class: 1, TTL: 3600, L: big, Vals: []any{strs}})
+		}
+		if g.R.IntN(3) == 0 {
+			one := [][]byte{}
+			for k := 0; k < 22; k++ {
+				one = append(one, g.TextBytes(255))
+			}
+			set.recs = []*model.Rec{{Owner: owner.Clone(), Type: 16, Class: 1, TTL: 3600, L: big, Vals: []any{one}}}
+		}
+		l = big
+		w.Count("large_rrsets", 1)
+	}
 	if len(set.recs) == 0 {
 		return
 	}
@@ -260,6 +281,9 @@ func c10Case(w *core.W, j int) {
 	}
 	if serr != nil {
 		w.Count("sign_errors", 1)
+		if j%9 == 8 {
+			w.Violation("C10/sign-fails/large-rrset/"+algName(alg), fmt.Sprintf("Sign of a well-formed TXT RRset of %d records fails: %v", len(set.recs), serr), wit)
+		}
 		return
 	}
 	w.Count("signed", 1)
@@ -279,6 +303,15 @@ func c10Case(w *core.W, j int) {
 		}
 		w.Eval(1)
 		return verr, true
+	}
+	{
+		wantLabels := len(owner)
+		if wild {
+			wantLabels--
+		}
+		if int(sig.Labels) != wantLabels {
+			w.Violation(key("sign-output-labels"), fmt.Sprintf("Sign set Labels=%d for owner %s, RFC 4034 s.3.1.3 gives %d", sig.Labels, owner.Pres(), wantLabels), wit)
+		}
 	}
 	// (1) the signature is a signature of the canonical form, and verifies
 	if ok, why := c10ModelAccepts(sig, k.Key, set); !ok {
@@ -386,6 +419,43 @@ func c10Case(w *core.W, j int) {
 		w.Cover("accepted_variant", v.name)
 		if verr, vok := verify(v.sig, k.Key, v.set); vok && verr != nil {
 			w.Violation(key("irrelevant-variant-rejected/"+v.name), fmt.Sprintf("Verify fails (%v) for a variant that must not matter: %s", verr, v.name), wit)
+		}
+	}
+	// (3b) the same RRSIG value signs the next RRset (a signer loops over a zone with one template):
+	// owners of another depth and a wildcard owner
+	for ri, o2 := range []model.Name{append(model.Name{[]byte("deeper"), []byte("down")}, owner...), zone.Clone(), append(model.Name{[]byte("*")}, zone...)} {
+		if !o2.Valid() {
+			continue
+		}
+		s2set := set.clone()
+		for _, r := range s2set.recs {
+			r.Owner = o2.Clone()
+		}
+		reused := dns.Copy(sig).(*dns.RRSIG) // carries Labels, OrigTtl, Signature ... of the first use
+		rr2 := s2set.build()
+		if rr2 == nil {
+			continue
+		}
+		var e2 error
+		if w.Guard("RRSIG.Sign(reused)", wit, func() { e2 = reused.Sign(k.Priv, rr2) }) {
+			continue
+		}
+		w.Count("reused_rrsig_signings", 1)
+		if e2 != nil {
+			w.Violation(key("reused-rrsig/sign-error"), fmt.Sprintf("signing a second RRset (owner %s) with the same RRSIG value: %v", o2.Pres(), e2), wit)
+			continue
+		}
+		wantLabels := len(o2)
+		if len(o2) > 0 && string(o2[0]) == "*" {
+			wantLabels--
+		}
+		if int(reused.Labels) != wantLabels {
+			w.Violation(key(fmt.Sprintf("reused-rrsig/labels/%d", ri)), fmt.Sprintf("the RRSIG produced for owner %s carries Labels=%d, RFC 4034 s.3.1.3 gives %d", o2.Pres(), reused.Labels, wantLabels), wit)
+		}
+		if ok, why := c10ModelAccepts(reused, k.Key, s2set); !ok {
+			w.Violation(key(fmt.Sprintf("reused-rrsig/sign-output-invalid/%d", ri)), fmt.Sprintf("an RRSIG value reused for an RRset owned by %s (Labels now %d) is not a valid signature: %s", o2.Pres(), reused.Labels, why), wit)
+		} else if verr, vok := verify(reused, k.Key, s2set); vok && verr != nil {
+			w.Violation(key(fmt.Sprintf("reused-rrsig/own-signature-rejected/%d", ri)), fmt.Sprintf("Verify rejects the reused RRSIG for owner %s: %v", o2.Pres(), verr), wit)
 		}
 	}
 	// (4) alterations: whatever Verify accepts must be acceptable to the model
